@@ -102,11 +102,23 @@ def run_case(ctx, h, tmp):
                 positions.append(('attr', oi, f))
             if f['kind'] == 'ref' and f['cont'] and f['many']:
                 positions.append(('orphan-class', oi, f))
+    if fmt == 'json' and m.objs:
+        # a value that reaches the JSON encoder as it is (a data type whose to_string hands the value on) and that the
+        # encoder refuses: the failure comes after the model has been turned into a dict
+        raw = E.EDataType('Raw', eType=complex, to_string=lambda v: v, from_string=lambda s_: complex(s_))
+        for oi in sorted({0, len(m.objs) - 1}):
+            cls = m.objs[oi].eClass
+            if cls.findEStructuralFeature('verif_raw') is None:
+                cls.eStructuralFeatures.append(E.EAttribute('verif_raw', raw))
+            positions.append(('json-encoder', oi, {'name': 'verif_raw'}))
     for (kind, oi, f) in positions:
         o = m.objs[oi]
         undo = None
         try:
-            if kind == 'attr':
+            if kind == 'json-encoder':
+                o.verif_raw = complex(1, 2)
+                undo = lambda o=o: delattr(o, 'verif_raw')
+            elif kind == 'attr':
                 if fmt == 'json':
                     continue        # json.dumps writes any str subclass; the JSON fault is the orphan class below
                 if f['many']:
